@@ -426,6 +426,42 @@ example : (applyGetter exEnv .timeUsec (some (.usec 249))).bind (applySetter exE
   set_get_roundtrip_time_usec exEnv rfl rfl 249 249000 (-4) (by decide) (by decide) (by decide) (by decide)
     (by decide)
 
+/-- **time (double), set → get on every canonical spelling**: for every text `%g` produces in its
+    fixed-notation range (six digits `D`, exponent `X ∈ [-4, 5]`: "0.0001", "2.5", "86400",
+    "999999", …) `cf_set_time_double` stores the nearest binary64 and `cf_get_time_double`
+    renders that double as the same text (concrete libc model, all values). -/
+theorem set_get_roundtrip_time_double (env : Env) (hs : env.strtod = strtodC) (hg : env.fmtG = fmtG)
+    (D : Nat) (X : Int) (hD1 : 100000 ≤ D) (hD2 : D < 1000000) (hX1 : -4 ≤ X) (hX2 : X ≤ 5) :
+    ∃ d, applySetter env .timeDouble (layoutG D X) = some (.dbl d) ∧
+      applyGetter env .timeDouble (some (.dbl d)) = some (layoutG D X) :=
+  time_double_set_get env hs hg D X hD1 hD2 hX1 hX2
+
+example : layoutG 250000 0 = [50, 46, 53] ∧ layoutG 864000 4 = [56, 54, 52, 48, 48] ∧
+    layoutG 100000 (-4) = [48, 46, 48, 48, 48, 49] := by decide +kernel
+
+/-- **the guard of the exact round trip is "at most six significant digits"**: the getters
+    print with `%g` (six digits).  For ANY stored `n` from 1 s to 999999 s the getter's text, fed
+    back, stores some `n'` for which the getter prints the same text and which is then
+    reproduced exactly (get ∘ set ∘ get = get) … -/
+theorem time_usec_get_set_get_stable (env : Env) (hs : env.strtod = strtodC) (hg : env.fmtG = fmtG)
+    (n : Nat) (h1 : 1000000 ≤ n) (h2 : n ≤ 999999000000) :
+    ∃ n' : Nat,
+      (applyGetter env .timeUsec (some (.usec n))).bind (applySetter env .timeUsec) = some (.usec n') ∧
+      applyGetter env .timeUsec (some (.usec n')) = applyGetter env .timeUsec (some (.usec n)) ∧
+      (applyGetter env .timeUsec (some (.usec n'))).bind (applySetter env .timeUsec) = some (.usec n') :=
+  time_usec_get_set_stable env hs hg n h1 h2
+
+/-- … but `n' = n` only up to six digits: 1.234567 s is stored exactly, rendered "1.23457", and
+    that text stores 1.23457 s (witness replayed on the code: corpus/C18/09-time-six-digits.ops).
+    The property's clause is about the setter being exact on what the getter renders, which
+    holds; the getter's precision is `%g`'s. -/
+theorem time_usec_seven_digits_witness :
+    applySetter exEnv .timeUsec [49, 46, 50, 51, 52, 53, 54, 55] = some (.usec 1234567) ∧
+    applyGetter exEnv .timeUsec (some (.usec 1234567)) = some [49, 46, 50, 51, 52, 53, 55] ∧
+    applySetter exEnv .timeUsec [49, 46, 50, 51, 52, 53, 55] = some (.usec 1234570) ∧
+    applyGetter exEnv .timeUsec (some (.usec 1234570)) = some [49, 46, 50, 51, 52, 53, 55] := by
+  decide +kernel
+
 /-- **round trip, time, concrete libc model** (`strtodC`, `fmtG`, IEEE round-to-nearest-even):
     each of the listed microsecond counts (among them the ones the unrepaired code got wrong:
     248…251, 488…511, 977…1009) — and each listed millisecond count as a double — is rendered by
@@ -441,11 +477,12 @@ theorem set_get_roundtrip_time_partial :
       (applyGetter exEnv .timeDouble (some (.dbl (dblOfRat false k 1000)))).bind
         (applySetter exEnv .timeDouble) = some (.dbl (dblOfRat false k 1000))) := by
   decide +kernel
-/- For microseconds the full statement is now `set_get_roundtrip_time_usec` above (all values with
-   <= 6 significant digits from 100 us to 999999 s).  What this finite list still adds: values
-   below 100 us (printed by %g in exponent notation, "9.9e-05"; the strtod model's exponent
-   parsing is not covered by `strtodC_plain`), and cf_set/get_time_double (same argument with
-   `set_time_double_nearest`, plus ratio-invariance of `roundRat`, not done).  Former statement:
+/- Proved for all values elsewhere in this file: microseconds with <= 6 significant digits from
+   100 us to 999999 s (`set_get_roundtrip_time_usec`), more digits (`time_usec_get_set_get_stable`,
+   witness `time_usec_seven_digits_witness`), doubles on canonical spellings
+   (`set_get_roundtrip_time_double`).  What this finite list still adds: texts %g prints in
+   exponent notation (below 1e-4 s, from 1e6 s), for which the strtod model's exponent parsing
+   is not covered by a general theorem.  Former statement:
    theorem set_get_roundtrip_time_full : ∀ u < 10^6 * 2^31, (u has at most 6 significant decimal
      digits) → (applyGetter exEnv .timeUsec (some (.usec u))).bind (applySetter exEnv .timeUsec)
      = some (.usec u)   -- and the analogue for doubles with ≤ 6 significant digits -/
